@@ -1,6 +1,9 @@
 #ifndef PHOTOSPLINE_CONVOLVE_H
 #define PHOTOSPLINE_CONVOLVE_H
 
+#include <cmath>
+#include <stdexcept>
+
 #include "photospline/splinetable.h"
 
 namespace photospline{
@@ -18,6 +21,14 @@ void splinetable<Alloc>::convolve(const uint32_t dim, const double* conv_knots, 
 		                        +" does not exist in a table with "+std::to_string(ndim)+" dimensions");
 	if (!conv_knots || n_conv_knots < 2)
 		throw std::logic_error("A convolution kernel needs at least two knots");
+	//knots which are not finite or not in order describe no kernel; accepting
+	//them would leave this table with an unusable knot vector
+	for (size_t j = 0; j < n_conv_knots; j++) {
+		if (!std::isfinite(conv_knots[j]))
+			throw std::invalid_argument("The knots of a convolution kernel must be finite");
+		if (j > 0 && conv_knots[j] < conv_knots[j-1])
+			throw std::invalid_argument("The knots of a convolution kernel must be in non-decreasing order");
+	}
 	
 	/* Construct the new knot field. */
 	size_t n_rho = 0;
